@@ -487,3 +487,62 @@ Proof.
   intros tr. unfold ser. pose proof (fold_ser_perm tr [] []) as P. cbn [app] in P.
   destruct (fold_left ser_step tr ([], [])) as [A C]. exact P.
 Qed.
+
+(* ------------------------------------------------------------------ the serialisation leaves serial executions alone *)
+Definition open_inv (o : option nat) (C : list (nat * ev)) : Prop :=
+  match o with None => C = [] | Some j => exists y C', C = y :: C' /\ fst y = j end.
+
+Lemma ser_step_serial : forall o A C x,
+  (match o with Some j => fst x = j | None => True end) -> open_inv o C ->
+  fst (ser_step (A, C) x) ++ snd (ser_step (A, C) x) = A ++ C ++ [x] /\ open_inv (owner_step o x) (snd (ser_step (A, C) x)).
+Proof.
+  intros o A C [i e] Hown Hinv. unfold ser_step, owner_step. cbn [fst snd] in *.
+  destruct o as [j|]; cbn [open_inv] in Hinv.
+  - destruct Hinv as [y [C' [-> Hy]]]. subst i. rewrite Hy, Nat.eqb_refl.
+    destruct e; cbn [fst snd open_inv]; (split; [rewrite <- ?app_assoc; reflexivity|]);
+      try (exists y; eexists; split; [reflexivity | assumption]); reflexivity.
+  - subst C. destruct e; cbn [fst snd open_inv app]; (split; [rewrite ?app_nil_r; reflexivity|]);
+      try reflexivity. exists (i, EAcq), []. auto.
+Qed.
+
+Lemma fold_ser_serial : forall tr o A C, serial o tr -> open_inv o C ->
+  fst (fold_left ser_step tr (A, C)) ++ snd (fold_left ser_step tr (A, C)) = A ++ C ++ tr.
+Proof.
+  induction tr as [|x tr IH]; intros o A C Hs Hinv; cbn [fold_left].
+  - rewrite app_nil_r. reflexivity.
+  - cbn [serial] in Hs. destruct Hs as [Hown Hs].
+    destruct (ser_step_serial o A C x Hown Hinv) as [E Hinv'].
+    destruct (ser_step (A, C) x) as [A1 C1]. cbn [fst snd] in *.
+    rewrite (IH _ A1 C1 Hs Hinv'). rewrite app_assoc, E. rewrite <- !app_assoc. reflexivity.
+Qed.
+
+(* an execution that is already serial is not touched at all (frame condition of the serialisation) *)
+Theorem ser_serial_id : forall tr, serial None tr -> ser tr = tr.
+Proof.
+  intros tr H. unfold ser. pose proof (fold_ser_serial tr None [] [] H eq_refl) as E.
+  destruct (fold_left ser_step tr ([], [])) as [A C]. exact E.
+Qed.
+
+(* hence serialising twice is serialising once, for every execution of disciplined threads *)
+Corollary ser_idempotent : forall prot m tr s, run (init m) tr = Some s -> disciplined prot tr -> ser (ser tr) = ser tr.
+Proof. intros prot m tr s Hr Hd. apply ser_serial_id. exact (proj1 (proj2 (proj2 (serialisable prot m tr s Hr Hd)))). Qed.
+
+(* ------------------------------------------------------------------ the classic formulation of data-race freedom *)
+(* no reachable state enables two conflicting accesses of different threads at the same time *)
+Theorem no_simultaneous_conflict : forall prot m tr s i e1 j e2,
+  run (init m) tr = Some s ->
+  disciplined prot (tr ++ [(i, e1)]) -> disciplined prot (tr ++ [(j, e2)]) ->
+  conflict e1 e2 -> i = j.
+Proof.
+  intros prot m tr s i e1 j e2 Hr H1 H2 Hc.
+  assert (Hp : (match e1 with ERd _ f _ | EWr _ f _ => prot f = true | _ => False end) /\
+               (match e2 with ERd _ f _ | EWr _ f _ => prot f = true | _ => False end)).
+  { destruct e1, e2; cbn in Hc; try contradiction; destruct Hc as [-> ->].
+    - pose proof (disc_write_prot _ _ _ _ _ _ _ H2). auto.
+    - pose proof (disc_write_prot _ _ _ _ _ _ _ H1). auto.
+    - pose proof (disc_write_prot _ _ _ _ _ _ _ H1). auto. }
+  destruct Hp as [P1 P2].
+  pose proof (access_holds prot tr i e1 [] H1 P1) as Hi.
+  pose proof (access_holds prot tr j e2 [] H2 P2) as Hj.
+  exact (mutual_exclusion prot m tr s i j Hr (disciplined_prefix _ _ _ H1) Hi Hj).
+Qed.
